@@ -17,7 +17,7 @@ import (
 // searchCfg is one search configuration, applied identically to the real search and to M-search.
 type searchCfg struct {
 	depth     int
-	selective int    // 0 = full exploration; k>=2: drop moves with h(m)%k==0 (the first legal move is always kept)
+	selective int // 0 = full exploration; k>=2: drop moves with h(m)%k==0 (the first legal move is always kept)
 	selSeed   uint64
 	quiesce   bool   // leaf = quiescence over captures (and promotions) instead of the static evaluation
 	evalSeed  uint64 // piece-square perturbation
